@@ -279,6 +279,7 @@ type observation struct {
 	Disk          *view         `json:"record_on_disk,omitempty"` // the status file once nothing writes any more
 	DiskOut       int           `json:"stdout_bytes_on_disk"`
 	HeldState     int           `json:"record_state_when_runner_held"`
+	HeldLate      bool          `json:"held_runner_came_back_late,omitempty"`
 	Stdin         string        `json:"stdin_on_disk,omitempty"` // "kept" | "differs:…" (only when the final reply had arrived)
 	DuringRestart string        `json:"results_during_restart,omitempty"`
 	Late          *view         `json:"late_planted_unit,omitempty"`
